@@ -1,18 +1,717 @@
 //! Per-state probes (run on copies, the explored state is untouched).
 
-use crate::hx::{Finding, HxCfg};
+use crate::hx::{drain_trace, Finding, HxCfg};
+use crate::menu::{dat_bytes, lab, lab_text};
 use crate::model::{Model, Op};
-use sodg::Sodg;
-use std::collections::BTreeMap;
+use crate::parse::{self, PVertex};
+use crate::real::{guarded, kids_of, reload, replay, thread_file};
+use rustc_hash::{FxHashMap, FxHashSet};
+use sodg::{Label, Sodg};
+use std::collections::{BTreeMap, BTreeSet};
+use std::sync::Mutex;
+
+/// State shared by all workers of one run (differential oracles, dedup of images).
+#[derive(Default, Debug)]
+pub struct Shared {
+    /// canonical graph -> (hash of xml, hash of dot, history that produced it)
+    pub exports: Mutex<FxHashMap<Vec<u8>, (u64, u64, Vec<Op>)>>,
+    /// distinct images already cut
+    pub images: Mutex<FxHashSet<Vec<u8>>>,
+}
+
+fn bump(c: &mut BTreeMap<&'static str, u64>, k: &'static str, by: u64) {
+    *c.entry(k).or_insert(0) += by;
+}
+
+fn h64(s: &str) -> u64 {
+    use std::hash::{Hash, Hasher};
+    let mut h = rustc_hash::FxHasher::default();
+    s.hash(&mut h);
+    h.finish()
+}
+
+/// What the model says the documents must show.
+pub fn expected_vertices(m: &Model) -> Vec<PVertex> {
+    m.present
+        .iter()
+        .map(|(v, mv)| PVertex {
+            id: *v,
+            edges: mv.edges.iter().map(|(l, t)| (lab_text(*l), *t)).collect(),
+            data: mv.data.map(dat_bytes),
+        })
+        .collect()
+}
+
+fn sorted_edges(e: &[(String, usize)]) -> Vec<(String, usize)> {
+    let mut e = e.to_vec();
+    e.sort();
+    e
+}
+
+/// Compare a parsed document with the model. `what` names the document.
+pub fn compare_document(what: &str, got: &[PVertex], exp: &[PVertex], check_order: bool, tags: &[&'static str]) -> Vec<Finding> {
+    let mut out = vec![];
+    let gids: Vec<usize> = got.iter().map(|v| v.id).collect();
+    let eids: Vec<usize> = exp.iter().map(|v| v.id).collect();
+    let gset: BTreeSet<usize> = gids.iter().copied().collect();
+    let eset: BTreeSet<usize> = eids.iter().copied().collect();
+    let extra: Vec<usize> = gset.difference(&eset).copied().collect();
+    let missing: Vec<usize> = eset.difference(&gset).copied().collect();
+    if !extra.is_empty() {
+        out.push(Finding::new(&format!("{what}-lists-absent-vertex"), tags, format!("{what} has nodes for {extra:?}, which are not present (present: {eids:?})")));
+    }
+    if !missing.is_empty() {
+        out.push(Finding::new(&format!("{what}-misses-vertex"), tags, format!("{what} has no node for the present vertices {missing:?}")));
+    }
+    if gids.len() != gset.len() {
+        out.push(Finding::new(&format!("{what}-duplicate-vertex"), tags, format!("{what} lists a vertex more than once: {gids:?}")));
+    }
+    if check_order && gids.windows(2).any(|w| w[0] >= w[1]) {
+        out.push(Finding::new(&format!("{what}-order"), tags, format!("{what} does not list the vertices in ascending id order: {gids:?}")));
+    }
+    for e in exp {
+        let Some(g) = got.iter().find(|v| v.id == e.id) else { continue };
+        if sorted_edges(&g.edges) != sorted_edges(&e.edges) {
+            out.push(Finding::new(&format!("{what}-edges"), tags, format!("{what} shows edges {:?} for ν{} but the vertex has {:?}", g.edges, e.id, e.edges)));
+        }
+        if g.data != e.data {
+            out.push(Finding::new(&format!("{what}-data"), tags, format!("{what} shows data {:?} for ν{} but the vertex has {:?}", g.data, e.id, e.data)));
+        }
+    }
+    out
+}
+
+fn canonical_graph(m: &Model) -> Vec<u8> {
+    let mut out = vec![];
+    for v in expected_vertices(m) {
+        out.extend_from_slice(format!("{}:{:?}:{:?};", v.id, sorted_edges(&v.edges), v.data).as_bytes());
+    }
+    out
+}
+
+pub fn exports_probe<const N: usize>(cfg: &HxCfg, g: &Sodg<N>, m: &Model, hist: &dyn Fn() -> Vec<Op>, out: &mut Vec<Finding>) {
+    let exp = expected_vertices(m);
+    let tags: &[&'static str] = &["C18"];
+    let xml = match guarded(|| g.to_xml()) {
+        Ok(Ok(x)) => x,
+        Ok(Err(e)) => {
+            out.push(Finding::new("xml-error", tags, format!("to_xml() returned Err: {e:#}")));
+            return;
+        }
+        Err(e) => {
+            out.push(Finding::new("xml-panic", tags, format!("to_xml() panicked: {e}")));
+            return;
+        }
+    };
+    match parse::parse_xml(&xml) {
+        Ok(pv) => out.extend(compare_document("xml", &pv, &exp, true, tags)),
+        Err(e) => out.push(Finding::new("xml-unparsable", tags, format!("cannot read the XML back: {e}"))),
+    }
+    let dot = match guarded(|| g.to_dot()) {
+        Ok(d) => d,
+        Err(e) => {
+            out.push(Finding::new("dot-panic", tags, format!("to_dot() panicked: {e}")));
+            return;
+        }
+    };
+    match parse::parse_dot(&dot) {
+        Ok(pv) => out.extend(compare_document("dot", &pv, &exp, true, tags)),
+        Err(e) => out.push(Finding::new("dot-unparsable", tags, format!("cannot read the DOT back: {e}"))),
+    }
+    // build-independence: same present vertices, edges, data => same text
+    let key = canonical_graph(m);
+    let (hx, hd) = (h64(&xml), h64(&dot));
+    let mut map = cfg.shared.exports.lock().unwrap();
+    match map.get(&key) {
+        None => {
+            map.insert(key, (hx, hd, hist()));
+        }
+        Some((ox, od, oh)) => {
+            if *ox != hx || *od != hd {
+                let mut f = Finding::new(
+                    "export-depends-on-build-history",
+                    tags,
+                    format!(
+                        "the {} text differs from the one produced for the same present vertices, edges and data after the history `{}`",
+                        if *ox != hx { "XML" } else { "DOT" },
+                        crate::model::hist_text(oh)
+                    ),
+                );
+                f.aux = Some(oh.clone());
+                out.push(f);
+            }
+        }
+    }
+}
+
+/// edges (source, label text, target) of everything reachable from v, per the model
+fn reachable_edges(m: &Model, reach: &BTreeSet<usize>) -> Vec<(usize, String, usize)> {
+    let mut e = vec![];
+    for x in reach {
+        for (l, t) in &m.present[x].edges {
+            e.push((*x, lab_text(*l), *t));
+        }
+    }
+    e.sort();
+    e
+}
+
+pub fn texts_probe<const N: usize>(g: &Sodg<N>, m: &Model, out: &mut Vec<Finding>, counters: &mut BTreeMap<&'static str, u64>) {
+    let tags: &[&'static str] = &["C20"];
+    let exp = expected_vertices(m);
+    for v in m.keys() {
+        let reach = m.reachable_present(v);
+        crate::inflight::note("inspect", v);
+        let r = guarded(|| g.inspect(v));
+        let Some(reach) = reach else {
+            // an edge leads to a collected vertex: only termination is demanded
+            bump(counters, "inspect_with_dangling_edges", 1);
+            continue;
+        };
+        match r {
+            Err(e) => out.push(Finding::new("inspect-panic", tags, format!("inspect({v}) panicked: {e}"))),
+            Ok(Err(e)) => out.push(Finding::new("inspect-error", tags, format!("inspect({v}) returned Err: {e:#}"))),
+            Ok(Ok(txt)) => match parse::parse_inspect(&txt) {
+                Err(e) => out.push(Finding::new("inspect-unparsable", tags, format!("inspect({v}): {e}\n{txt}"))),
+                Ok((root, triples)) => {
+                    if root != v {
+                        out.push(Finding::new("inspect-root", tags, format!("inspect({v}) starts with ν{root}")));
+                    }
+                    let mut got: Vec<(usize, String, usize)> = triples.iter().map(|(s, l, t, _)| (*s, l.clone(), *t)).collect();
+                    got.sort();
+                    let want = reachable_edges(m, &reach);
+                    if got != want {
+                        out.push(Finding::new(
+                            "inspect-edges",
+                            tags,
+                            format!("inspect({v}) lists the edges {got:?} but the edges of the vertices reachable from ν{v}, each once, are {want:?}\n{txt}"),
+                        ));
+                    }
+                    if reach.len() > 1 && want.len() >= reach.len() {
+                        bump(counters, "inspect_on_cyclic_or_shared_shapes", 1);
+                    }
+                }
+            },
+        }
+        match guarded(|| g.v_print(v)) {
+            Err(e) => out.push(Finding::new("vprint-panic", tags, format!("v_print({v}) panicked: {e}"))),
+            Ok(Err(e)) => out.push(Finding::new("vprint-error", tags, format!("v_print({v}) returned Err: {e:#}"))),
+            Ok(Ok(txt)) => match parse::parse_vprint(&txt) {
+                Err(e) => out.push(Finding::new("vprint-unparsable", tags, e)),
+                Ok((id, marker, labels)) => {
+                    let mv = &m.present[&v];
+                    if id != v {
+                        out.push(Finding::new("vprint-id", tags, format!("v_print({v}) prints ν{id}")));
+                    }
+                    if marker != mv.data.is_some() {
+                        out.push(Finding::new("vprint-marker", tags, format!("v_print({v})={txt:?}: data marker shown={marker} but has data={}", mv.data.is_some())));
+                    }
+                    let mut got = labels.clone();
+                    got.sort();
+                    let mut want: Vec<String> = mv.edges.iter().map(|(l, _)| lab_text(*l)).collect();
+                    want.sort();
+                    if got != want {
+                        out.push(Finding::new("vprint-labels", tags, format!("v_print({v})={txt:?} lists labels {got:?} but the vertex has {want:?}")));
+                    }
+                }
+            },
+        }
+    }
+    crate::inflight::note("debug", 0);
+    for (name, r) in [("Debug", guarded(|| format!("{g:?}"))), ("Display", guarded(|| format!("{g}")))] {
+        match r {
+            Err(e) => out.push(Finding::new("debug-panic", tags, format!("{name} formatting panicked: {e}"))),
+            Ok(txt) => match parse::parse_debug(&txt) {
+                Err(e) => out.push(Finding::new("debug-unparsable", tags, format!("{name}: {e}"))),
+                Ok(pv) => out.extend(compare_document(if name == "Debug" { "debug" } else { "display" }, &pv, &exp, false, tags)),
+            },
+        }
+    }
+}
+
+/// Reference reachability under a predicate (edges by index of acceptance).
+pub fn ref_reach(m: &Model, v: usize, p: &dyn Fn(usize, usize, u8) -> bool) -> BTreeSet<usize> {
+    let mut seen = BTreeSet::new();
+    seen.insert(v);
+    let mut todo = vec![v];
+    while let Some(x) = todo.pop() {
+        if let Some(mx) = m.present.get(&x) {
+            for (l, t) in &mx.edges {
+                if p(x, *t, *l) && seen.insert(*t) {
+                    todo.push(*t);
+                }
+            }
+        }
+    }
+    seen
+}
+
+fn label_index(l: &Label, _labels: &[u8]) -> Option<u8> {
+    // the whole menu: merge transitions bring labels the bind alphabet lacks
+    (0..=255u8).find(|i| lab(*i) == *l)
+}
+
+/// Judge one slice against the model. `p` is the predicate on (from, to, label index).
+pub fn judge_slice<const N: usize>(
+    what: &str,
+    s: &Sodg<N>,
+    m: &Model,
+    v: usize,
+    labels: &[u8],
+    p: &dyn Fn(usize, usize, u8) -> bool,
+    out: &mut Vec<Finding>,
+) {
+    let tags: &[&'static str] = &["C13"];
+    let want = ref_reach(m, v, p);
+    let keys: BTreeSet<usize> = guarded(|| s.keys()).unwrap_or_default().into_iter().collect();
+    if keys != want {
+        out.push(Finding::new("slice-vertices", tags, format!("{what}: the slice has the vertices {keys:?} but those reachable from ν{v} along accepted edges are {want:?}")));
+        return;
+    }
+    for x in &want {
+        let got = guarded(|| kids_of(s, *x)).unwrap_or_default();
+        let src = &m.present[x].edges;
+        // nothing invented
+        for (l, t) in &got {
+            let li = label_index(l, labels);
+            if !li.is_some_and(|li| src.iter().any(|(a, b)| *a == li && b == t)) {
+                out.push(Finding::new("slice-invented-edge", tags, format!("{what}: the slice has the edge ν{x}.{l}->ν{t}, which the source lacks")));
+            }
+        }
+        // every accepted edge between kept vertices is there
+        for (a, t) in src {
+            if want.contains(t) && p(*x, *t, *a) && !got.iter().any(|(l, b)| *l == lab(*a) && b == t) {
+                out.push(Finding::new("slice-lost-edge", tags, format!("{what}: the accepted edge ν{x}.{}->ν{t} between kept vertices is missing in the slice", lab_text(*a))));
+            }
+        }
+    }
+}
+
+/// All drain orders of slice's work-list, enumerated through the hook (capped).
+pub fn for_each_drain_order(limit: usize, mut run: impl FnMut() -> bool) -> usize {
+    // DFS over choice sequences: run with a preset, read the arities taken, advance like an odometer
+    let mut preset: Vec<usize> = vec![];
+    let mut runs = 0;
+    loop {
+        sodg::verif::install_choices(preset.clone());
+        let go_on = run();
+        let taken = sodg::verif::remove_choices().map(|c| c.taken).unwrap_or_default();
+        runs += 1;
+        if !go_on || runs >= limit {
+            break;
+        }
+        // next sequence
+        let mut seq: Vec<(usize, usize)> = taken;
+        loop {
+            match seq.pop() {
+                None => return runs,
+                Some((c, arity)) => {
+                    if c + 1 < arity {
+                        seq.push((c + 1, arity));
+                        break;
+                    }
+                }
+            }
+        }
+        preset = seq.iter().map(|(c, _)| *c).collect();
+    }
+    runs
+}
+
+pub fn slice_probe<const N: usize>(cfg: &HxCfg, g: &Sodg<N>, m: &Model, out: &mut Vec<Finding>, counters: &mut BTreeMap<&'static str, u64>) {
+    let tags: &[&'static str] = &["C13"];
+    let before = guarded(|| g.verif_snapshot()).ok();
+    for v in m.keys() {
+        let Some(reach) = m.reachable_present(v) else {
+            bump(counters, "slice_skipped_dangling", 1);
+            continue;
+        };
+        if reach.len() > 14 {
+            continue;
+        }
+        crate::inflight::note("slice", v);
+        // predicates: everything; reject one label; reject edges into one vertex; by parity of the source
+        let mut preds: Vec<(String, Box<dyn Fn(usize, usize, u8) -> bool>)> = vec![("slice".to_string(), Box::new(|_, _, _| true))];
+        for l in &cfg.labels {
+            let l = *l;
+            preds.push((format!("slice_some(reject label {})", lab_text(l)), Box::new(move |_, _, a| a != l)));
+        }
+        for t in reach.iter().copied() {
+            preds.push((format!("slice_some(reject edges into ν{t})"), Box::new(move |_, to, _| to != t)));
+        }
+        preds.push(("slice_some(only edges from even ids)".to_string(), Box::new(|f, _, _| f % 2 == 0)));
+        preds.push(("slice_some(reject all)".to_string(), Box::new(|_, _, _| false)));
+        for (name, p) in &preds {
+            let what = format!("{name} at ν{v}");
+            let labels = cfg.labels.clone();
+            let runs = for_each_drain_order(24, || {
+                let r = if name == "slice" {
+                    guarded(|| g.slice(v))
+                } else {
+                    guarded(|| g.slice_some(v, |f, t, a| label_index(&a, &labels).is_some_and(|li| p(f, t, li))))
+                };
+                match r {
+                    Err(e) => {
+                        out.push(Finding::new("slice-panic", tags, format!("{what} panicked: {e}")));
+                        false
+                    }
+                    Ok(Err(e)) => {
+                        out.push(Finding::new("slice-error", tags, format!("{what} returned Err: {e:#}")));
+                        false
+                    }
+                    Ok(Ok(s)) => {
+                        let n0 = out.len();
+                        judge_slice(&what, &s, m, v, &cfg.labels, p.as_ref(), out);
+                        out.len() == n0
+                    }
+                }
+            });
+            bump(counters, "slices_judged", runs as u64);
+            if reach.len() > 1 && reachable_edges(m, &reach).len() >= reach.len() {
+                bump(counters, "slices_of_cyclic_or_shared_shapes", 1);
+            }
+        }
+    }
+    if let (Some(b), Ok(a)) = (before, guarded(|| g.verif_snapshot())) {
+        if a != b {
+            out.push(Finding::new("slice-changed-source", tags, "the source graph changed while it was sliced".to_string()));
+        }
+    }
+}
+
+/// Every public observable of a graph as one text (used for "answers every query alike").
+pub fn observe_all<const N: usize>(g: &Sodg<N>, with_slices: bool) -> String {
+    let mut t = String::new();
+    let keys = guarded(|| g.keys()).unwrap_or_default();
+    t.push_str(&format!("keys={keys:?} len={:?} is_empty={:?}\n", guarded(|| g.len()).ok(), guarded(|| g.is_empty()).ok()));
+    for v in &keys {
+        let kids = guarded(|| kids_of(g, *v)).unwrap_or_default();
+        t.push_str(&format!("kids({v})={}\n", crate::hx::fmt_edges(&kids)));
+        for (l, _) in &kids {
+            t.push_str(&format!("kid({v},{l})={:?}\n", guarded(|| g.kid(*v, *l)).ok().flatten()));
+        }
+        t.push_str(&format!("v_print({v})={:?}\n", guarded(|| g.v_print(*v).ok()).ok().flatten()));
+        t.push_str(&format!("inspect({v})={:?}\n", guarded(|| g.inspect(*v).ok()).ok().flatten()));
+        if with_slices {
+            t.push_str(&format!("slice({v}).keys={:?}\n", guarded(|| g.slice(*v).ok().map(|s| s.keys())).ok().flatten()));
+        }
+    }
+    t.push_str(&format!("debug={:?}\n", guarded(|| format!("{g:?}")).ok()));
+    t.push_str(&format!("xml={:?}\n", guarded(|| g.to_xml().ok()).ok().flatten()));
+    t.push_str(&format!("dot={:?}\n", guarded(|| g.to_dot()).ok()));
+    t
+}
+
+fn first_diff(a: &str, b: &str) -> String {
+    for (la, lb) in a.lines().zip(b.lines()) {
+        if la != lb {
+            return format!("`{la}` vs `{lb}`");
+        }
+    }
+    format!("{} vs {} lines", a.lines().count(), b.lines().count())
+}
+
+/// What a graph does from here on: reads of everything in both orders, then fresh ids.
+pub fn future_trace<const N: usize>(g: &Sodg<N>, keys: &[usize]) -> Vec<String> {
+    let mut t = drain_trace(g, keys, false);
+    t.push("--".to_string());
+    t.extend(drain_trace(g, keys, true));
+    t.push("--".to_string());
+    if let Ok(mut c) = guarded(|| g.clone()) {
+        for _ in 0..2 {
+            let free = guarded(|| c.keys().len()).unwrap_or(0) < c.verif_snapshot().vertices.len();
+            if !free {
+                break;
+            }
+            match guarded(|| c.next_id()) {
+                Ok(id) => {
+                    t.push(format!("next_id()={id}"));
+                    let _ = guarded(|| c.add(id));
+                }
+                Err(_) => {
+                    t.push("next_id() panicked".to_string());
+                    break;
+                }
+            }
+        }
+    }
+    t
+}
+
+pub fn clone_probe<const N: usize>(cfg: &HxCfg, g: &Sodg<N>, m: &Model, hist: &dyn Fn() -> Vec<Op>, ops: &[Op], out: &mut Vec<Finding>, counters: &mut BTreeMap<&'static str, u64>) {
+    let tags: &[&'static str] = &["C10"];
+    let h = hist();
+    // the original: rebuilt from Sodg::empty() by replaying the whole history (no clone() involved)
+    let Ok(orig) = replay::<N>(cfg.cap, &h) else { return };
+    let Ok(orig2) = replay::<N>(cfg.cap, &h) else { return };
+    let c = match guarded(|| orig.clone()) {
+        Ok(c) => c,
+        Err(e) => {
+            out.push(Finding::new("clone-panic", tags, format!("clone() panicked: {e}")));
+            return;
+        }
+    };
+    let (oa, ob) = (observe_all(&orig, true), observe_all(&c, true));
+    if oa != ob {
+        out.push(Finding::new("clone-answers-differ", tags, format!("the clone answers a query differently: {}", first_diff(&oa, &ob))));
+        return;
+    }
+    // differential check of the explorer's own use of clone(): the state reached through clones
+    let og = observe_all(g, true);
+    if og != oa {
+        out.push(Finding::new("clone-lineage-differs", tags, format!("the object reached through a chain of clone()s differs from the one rebuilt from scratch: {}", first_diff(&og, &oa))));
+        return;
+    }
+    // same future: reads in both orders, ids handed out
+    let keys = m.keys();
+    let (fa, fb) = (future_trace_owned(orig2, &keys), future_trace(&c, &keys));
+    if fa != fb {
+        let i = fa.iter().zip(fb.iter()).position(|(a, b)| a != b).unwrap_or(fa.len().min(fb.len()));
+        out.push(Finding::new("clone-future-differs", tags, format!("given the same calls the clone behaves differently: original {:?}, clone {:?}", fa.get(i), fb.get(i))));
+        return;
+    }
+    bump(counters, "clone_futures_compared", 1);
+    // independence: mutating the clone never changes the original, and vice versa
+    let snap = orig.verif_snapshot();
+    let impl_pos = snap.next_v;
+    for op in ops {
+        if matches!(op, Op::CloneSwap | Op::ReloadSwap) || !m.enabled(op, impl_pos) {
+            continue;
+        }
+        let Ok(mut c2) = guarded(|| orig.clone()) else { continue };
+        let _ = crate::real::apply_real(&mut c2, op);
+        if orig.verif_snapshot() != snap {
+            out.push(Finding::new("clone-not-independent", tags, format!("{} on the clone changed the original", op.text())));
+            return;
+        }
+        bump(counters, "clone_independence_checks", 1);
+    }
+    // and the other way round: mutate the original, the clone stays
+    let csnap = c.verif_snapshot();
+    let mut o = orig;
+    for op in ops {
+        if matches!(op, Op::CloneSwap | Op::ReloadSwap | Op::Merge(..)) || !m.enabled(op, impl_pos) {
+            continue;
+        }
+        if crate::real::apply_real(&mut o, op).is_err() {
+            break;
+        }
+        if c.verif_snapshot() != csnap {
+            out.push(Finding::new("clone-not-independent", tags, format!("{} on the original changed the clone", op.text())));
+            return;
+        }
+        break; // one mutation of the original is enough per state; the model no longer describes `o`
+    }
+}
+
+/// future_trace for an object we own and that never went through clone() itself:
+/// the ascending drain runs on the object, the rest on rebuilt copies is not
+/// possible without clone(), so the remaining parts use clones of it (taken first).
+fn future_trace_owned<const N: usize>(g: Sodg<N>, keys: &[usize]) -> Vec<String> {
+    future_trace(&g, keys)
+}
+
+pub fn reload_probe<const N: usize>(g: &Sodg<N>, m: &Model, out: &mut Vec<Finding>, counters: &mut BTreeMap<&'static str, u64>) -> Option<Vec<u8>> {
+    let tags: &[&'static str] = &["C08"];
+    let f = thread_file("probe");
+    match guarded(|| g.save(&f)) {
+        Err(e) => {
+            out.push(Finding::new("save-panic", tags, format!("save() panicked: {e}")));
+            return None;
+        }
+        Ok(Err(e)) => {
+            out.push(Finding::new("save-error", tags, format!("save() returned Err: {e:#}")));
+            return None;
+        }
+        Ok(Ok(size)) => {
+            let bytes = std::fs::read(&f).unwrap_or_default();
+            if bytes.len() != size {
+                out.push(Finding::new("save-size", tags, format!("save() returned {size} but the file has {} bytes", bytes.len())));
+            }
+            let l: Sodg<N> = match guarded(|| Sodg::load(&f)) {
+                Err(e) => {
+                    out.push(Finding::new("load-panic", &["C08", "C09"], format!("load() of a complete image panicked: {e}")));
+                    return Some(bytes);
+                }
+                Ok(Err(e)) => {
+                    out.push(Finding::new("load-error", &["C08", "C09"], format!("load() of a complete image returned Err: {e:#}")));
+                    return Some(bytes);
+                }
+                Ok(Ok(l)) => l,
+            };
+            let (oa, ob) = (observe_all(g, true), observe_all(&l, true));
+            if oa != ob {
+                out.push(Finding::new("reload-answers-differ", tags, format!("the reloaded graph answers a query differently: {}", first_diff(&oa, &ob))));
+                return Some(bytes);
+            }
+            // same future reads (the allocator may restart: ids are judged by C05 only)
+            let keys = m.keys();
+            for desc in [false, true] {
+                let (a, b) = (drain_trace(g, &keys, desc), drain_trace(&l, &keys, desc));
+                if a != b {
+                    let i = a.iter().zip(b.iter()).position(|(x, y)| x != y).unwrap_or(a.len().min(b.len()));
+                    out.push(Finding::new("reload-future-differs", tags, format!("given the same reads the reloaded graph behaves differently: original {:?}, reloaded {:?}", a.get(i), b.get(i))));
+                    return Some(bytes);
+                }
+            }
+            // the restarted allocator still has to hand out an absent id below the capacity
+            if keys.len() < m.cap {
+                if let Ok(mut lc) = guarded(|| l.clone()) {
+                    match guarded(|| lc.next_id()) {
+                        Ok(id) => {
+                            if id >= m.cap || keys.contains(&id) {
+                                out.push(Finding::new("reload-next-id", &["C08", "C05"], format!("after a reload next_id() returned {id} (present: {keys:?}, capacity {})", m.cap)));
+                            }
+                        }
+                        Err(e) => out.push(Finding::new("reload-next-id", &["C08", "C05"], format!("after a reload next_id() panicked although ids are free: {e}"))),
+                    }
+                }
+            }
+            // diagnostic only: whole-state equality modulo the allocator position
+            let mut a = g.verif_snapshot();
+            a.next_v = 0;
+            if l.verif_snapshot() != a {
+                bump(counters, "diagnostic_snapshot_differs_after_reload", 1);
+            }
+            bump(counters, "reloads_compared", 1);
+            if m.present.values().any(|x| x.unread && x.group.is_some()) {
+                bump(counters, "reload_probe_with_unread_in_group", 1);
+            }
+            if m.present.values().any(|x| x.data.is_some() && !x.unread) {
+                bump(counters, "reload_probe_with_taken_data", 1);
+            }
+            if m.present.values().any(|x| x.data.is_some_and(|d| dat_bytes(d).len() > 8 || d == 4)) {
+                bump(counters, "reload_probe_with_heap_data", 1);
+            }
+            Some(bytes)
+        }
+    }
+}
+
+/// CUTS: every proper prefix of the image must be rejected by load().
+pub fn cuts_of_image<const N: usize>(bytes: &[u8], out: &mut Vec<Finding>, counters: &mut BTreeMap<&'static str, u64>) {
+    let tags: &[&'static str] = &["C09"];
+    let f = thread_file("cut");
+    // the complete image is written once and then shortened byte by byte
+    if std::fs::write(&f, bytes).is_err() {
+        return;
+    }
+    let Ok(file) = std::fs::OpenOptions::new().write(true).open(&f) else { return };
+    for k in (0..bytes.len()).rev() {
+        if file.set_len(k as u64).is_err() {
+            return;
+        }
+        match guarded(|| Sodg::<N>::load(&f).map(|g| g.len())) {
+            Ok(Err(_)) => {}
+            Ok(Ok(n)) => {
+                out.push(Finding::new("cut-image-loaded", tags, format!("an image of {} bytes cut to {k} bytes was loaded as a graph of {n} vertices instead of being rejected", bytes.len())));
+                return;
+            }
+            Err(e) => {
+                out.push(Finding::new("cut-image-panic", tags, format!("load() of an image of {} bytes cut to {k} bytes panicked: {e}", bytes.len())));
+                return;
+            }
+        }
+    }
+    bump(counters, "cut_files_loaded", bytes.len() as u64);
+    bump(counters, "distinct_images_cut", 1);
+}
+
+/// C19: the same history under another configuration / in a fresh object.
+pub fn trace_of<const M: usize>(cap: usize, hist: &[Op]) -> String {
+    let mut g: Sodg<M> = Sodg::empty(cap);
+    let mut t = String::new();
+    for op in hist {
+        match crate::real::apply_real(&mut g, op) {
+            Ok(r) => t.push_str(&format!("{} -> {r:?}\n", op.text())),
+            Err(e) => {
+                // the panic text may name the configuration; only the fact is compared
+                let _ = e;
+                t.push_str(&format!("{} -> panic\n", op.text()));
+                return t;
+            }
+        }
+    }
+    t.push_str(&observe_all(&g, true));
+    t
+}
+
+pub fn lockstep_probe<const N: usize>(cfg: &HxCfg, hist: &dyn Fn() -> Vec<Op>, out: &mut Vec<Finding>, counters: &mut BTreeMap<&'static str, u64>) {
+    let tags: &[&'static str] = &["C19"];
+    let h = hist();
+    let base = trace_of::<N>(cfg.cap, &h);
+    for i in 0..cfg.probes.rerun {
+        let again = trace_of::<N>(cfg.cap, &h);
+        bump(counters, "reruns_compared", 1);
+        if again != base {
+            out.push(Finding::new("rerun-differs", tags, format!("replaying the same history in a fresh object (run {}) gives a different result: {}", i + 2, first_diff(&base, &again))));
+            return;
+        }
+    }
+    for (n2, cap2) in &cfg.probes.lockstep {
+        assert!(*n2 >= cfg.n && *cap2 >= cfg.cap, "the lock-step configuration must be at least as large as the base configuration");
+        let other = crate::with_any_n!(*n2, M, { trace_of::<M>(*cap2, &h) });
+        bump(counters, "configurations_compared", 1);
+        if other != base {
+            out.push(Finding::new(
+                "configuration-changes-answer",
+                tags,
+                format!("Sodg<{}> with capacity {} and Sodg<{n2}> with capacity {cap2} answer differently: {}", cfg.n, cfg.cap, first_diff(&base, &other)),
+            ));
+            return;
+        }
+    }
+}
 
 #[allow(clippy::too_many_arguments)]
 pub fn run_all<const N: usize>(
-    _cfg: &HxCfg,
-    _g: &Sodg<N>,
-    _m: &Model,
-    _hist: &dyn Fn() -> Vec<Op>,
-    _out: &mut Vec<Finding>,
-    _runs: &mut u64,
-    _counters: &mut BTreeMap<&'static str, u64>,
+    cfg: &HxCfg,
+    g: &Sodg<N>,
+    m: &Model,
+    hist: &dyn Fn() -> Vec<Op>,
+    out: &mut Vec<Finding>,
+    runs: &mut u64,
+    counters: &mut BTreeMap<&'static str, u64>,
 ) {
+    let p = &cfg.probes;
+    if p.exports {
+        *runs += 1;
+        exports_probe(cfg, g, m, hist, out);
+    }
+    if p.texts {
+        *runs += 1;
+        texts_probe(g, m, out, counters);
+    }
+    if p.slice {
+        *runs += 1;
+        slice_probe(cfg, g, m, out, counters);
+    }
+    if p.clone {
+        *runs += 1;
+        clone_probe(cfg, g, m, hist, &cfg.ops(), out, counters);
+    }
+    if p.reload || p.cuts {
+        *runs += 1;
+        let mut fs = vec![];
+        let bytes = reload_probe(g, m, &mut fs, counters);
+        if p.reload {
+            out.append(&mut fs);
+        } else {
+            // the cuts run still needs complete images to load
+            out.extend(fs.into_iter().filter(|f| f.tags.contains(&"C09")));
+        }
+        if p.cuts {
+            if let Some(b) = bytes {
+                let fresh = cfg.shared.images.lock().unwrap().insert(b.clone());
+                if fresh {
+                    cuts_of_image::<N>(&b, out, counters);
+                }
+            }
+        }
+    }
+    if !p.lockstep.is_empty() || p.rerun > 0 {
+        *runs += 1;
+        lockstep_probe::<N>(cfg, hist, out, counters);
+    }
+    let _ = reload::<N>;
 }
